@@ -374,6 +374,14 @@ func Harness_Act(n int, layout int, street int, limit int, cur int, op int) {
 			}
 		}
 		vhInvTurnAssert(gs, nxt, "")
+		{
+			alive, movable := int64(0), int64(0)
+			for _, p := range gs.Players {
+				alive += vIte(!p.Fold, 1, 0)
+				movable += vIte(vAnd(!p.Fold, p.StackSize > 0), 1, 0)
+			}
+			vAssert(alive >= 2 && movable >= 1, "C05.inv-betting-needs-two-alive-one-with-chips")
+		}
 		// progress (C05 one lap, C06 termination): chips behind shrink, or the number of seats still to act does
 		stackSum := int64(0)
 		notActed := int64(0)
@@ -388,6 +396,7 @@ func Harness_Act(n int, layout int, street int, limit int, cur int, op int) {
 		vAssert(st.CurrentEvent == "RoundClosed", "C06.after-action-round-started-or-closed")
 		for _, p := range gs.Players {
 			vAssert(len(p.AllowedActions) == 0, "C04.nobody-offered-actions-after-closure")
+			vAssert(!p.Acted, "C05.inv-closed-round-has-cleared-turn-flags")
 		}
 		vhPotsTotal(gs, "@closed")
 		// C05: closed only when one seat is left, nobody can move, or everybody with chips has
